@@ -16,14 +16,18 @@ for d in sorted(p for p in root.iterdir() if p.is_dir()):
     caught = m.get("checks_reporting_violation", {})
     rules = sorted({r for v in caught.values() for r in v.get("rules", [])})
     errs = sorted(m.get("checks_analysis_error", {}))
+    own = m.get("own_property_final_check") or {}
+    if own.get("exit") == 1:
+        rules = sorted(set(rules) | set(own.get("rules", [])))
     rows.append({"seed": d.name, "property": m.get("property"), "files": files, "caught_by": rules, "analysis_errors": errs,
-                 "own_property_check_exit": m.get("own_property_check_exit"), "confirmed": m.get("confirmed")})
+                 "own_property_check_exit": own.get("exit", m.get("own_property_check_exit")), "own_rules": own.get("rules", []), "confirmed": m.get("confirmed")})
 (root / "SUMMARY.json").write_text(json.dumps(rows, indent=1))
-print("| seed | files | reported by |")
-print("|---|---|---|")
+print("| seed | files | reported by its own property's check | also reported by |")
+print("|---|---|---|---|")
 for r in rows:
-    print(f"| {r['seed']} | {', '.join('`' + f + '`' for f in r['files'])} | {', '.join(r['caught_by']) or '**not reported**'}"
-          + (f" (exit 2 in {', '.join(r['analysis_errors'])})" if r["analysis_errors"] else "") + " |")
+    ownr = [x for x in r["caught_by"] if x.startswith(r["property"] + ".")]
+    other = sorted({x.split(".")[0] for x in r["caught_by"] if not x.startswith(r["property"] + ".")})
+    print(f"| {r['seed']} | {', '.join('`' + f + '`' for f in r['files'])} | {', '.join(ownr) or '**no**'} | {', '.join(other)} |")
 n = len(rows)
 print(f"\n{n} seeded changes, {sum(1 for r in rows if r['caught_by'])} reported by at least one check, "
       f"{sum(1 for r in rows if r['own_property_check_exit'] == 1)} by the check of their own property.")
